@@ -276,7 +276,10 @@ def _f(x, digits):
     return repr(float(x)) if digits >= 17 else f"{x:.{digits - 1}e}"
 
 
-def write_molden(case, enc, rng: random.Random, digits=17):
+def write_molden(case, enc, rng: random.Random, digits=17, atom_order=None, skip_empty=False):
+    """``atom_order``: order in which the per-atom [GTO] blocks are written (each block starts with its atom's sequence
+    number, so any order is well-formed; the rows of the MO section follow the blocks as written, i.e. ``enc['shells']``
+    must list the shells in that order); ``skip_empty``: atoms without shells get no block at all."""
     kinds = {sh["l"]: sh["kind"] for sh in case["shells"] if sh["l"] >= 2}
     tags = []
     d, f, g = kinds.get(2, None), kinds.get(3, None), kinds.get(4, kinds.get(5, None))
@@ -293,7 +296,8 @@ def write_molden(case, enc, rng: random.Random, digits=17):
     if g == "p":
         tags.append("[9G]")
     tagtxt = "".join(t + "\n" for t in tags)
-    tags_first = rng.random() < 0.5
+    tags_first = rng.random() < 0.4
+    tags_last = (not tags_first) and rng.random() < 0.4  # the tags may also follow the [MO] section (no blank line before)
     out = ["[Molden Format]\n", "[Title]\n", f" vendor-encoded test file ({case['vendor']})\n", "\n"]
     if tags_first:
         out.append(tagtxt)
@@ -303,7 +307,9 @@ def write_molden(case, enc, rng: random.Random, digits=17):
     for i, (z, p) in enumerate(zip(case["zs"], case["coords"])):
         out.append(f"{SYMBOLS[z]:<3s}{i + 1:4d}{z:4d}  {p[0]!r}  {p[1]!r}  {p[2]!r}\n")
     out.append("[GTO]\n")
-    for ia in range(len(case["zs"])):
+    for ia in (atom_order if atom_order is not None else range(len(case["zs"]))):
+        if skip_empty and not any(sh["ic"] == ia for sh in enc["shells"]):
+            continue
         out.append(f"{ia + 1:3d} 0\n")
         for sh in enc["shells"]:
             if sh["ic"] != ia:
@@ -312,7 +318,7 @@ def write_molden(case, enc, rng: random.Random, digits=17):
             for a, c in zip(sh["exps"], sh["coefs"]):
                 out.append(f"   {a!r}  {_f(c, digits)}\n")
         out.append("\n")
-    if not tags_first:
+    if not tags_first and not tags_last:
         out.append(tagtxt)
     out.append("[MO]\n")
     for C, occ, en, spin in ((enc["Ca"], case["occa"], case["ena"], "Alpha"), (enc["Cb"], case["occb"], case["enb"], "Beta")):
@@ -322,6 +328,8 @@ def write_molden(case, enc, rng: random.Random, digits=17):
             out.append(f" Sym= {j + 1}a\n Ene= {en[j]!r}\n Spin= {spin}\n Occup= {occ[j]!r}\n")
             for r in range(C.shape[0]):
                 out.append(f"{r + 1:4d} {_f(C[r, j], digits)}\n")
+    if tags_last:
+        out.append(tagtxt)
     return "".join(out)
 
 
